@@ -444,3 +444,6 @@ def check(run):
     run.rule(c10.r10f, run)
     run.rule(c10.r10h, run)
     run.rule(c04.r04c, run)
+    from . import c10 as _c10
+    run.rules_run.append("R11h")
+    run.rule(_c10.option_defaults, run, "R11h", {'invalid_items': "'throw'", 'invalid_keys': "'throw'", 'invalid_values': "'throw'"}, "offending elements fail the parse unless a policy says otherwise")
